@@ -90,6 +90,7 @@ type Host struct {
 	removed      bool
 	selfRemoved  bool
 	crashedBefore bool
+	imported     bool
 	snapDir      string
 	role         int  // current role as far as the harness knows
 	joinRole     int  // role it was first added with: what its config must say
@@ -116,6 +117,12 @@ type Sim struct {
 	orc   *oracles
 	initialMembers map[uint64]dragonboat.Target
 	nextWID uint64
+	importMode bool
+	exportIndex uint64
+	expected *exported
+	expectedMembers map[uint64]string
+	importFlipAccepted bool
+	flipBit, flipLen int
 	sessRand *auxRand
 	stateSig uint64
 }
@@ -333,6 +340,10 @@ func (s *Sim) tryStartReplica(h *Host) bool {
 		members = nil
 		join = true
 	}
+	if h.imported {
+		// restarted "in the same way as after rebooting the host"
+		members, join = nil, false
+	}
 	switch {
 	case h.joinRole == roleWitness && !h.initial:
 		// a witness has no user state machine worth the name
@@ -440,8 +451,31 @@ func (s *Sim) hookAsync(t *transport.Transport, kind string, shard uint64, to ui
 
 // Run executes one simulated run.
 func Run(ctx *runner.Ctx) *runner.Result {
+	s := newSim(ctx, nil)
+	defer s.teardown()
+	s.bootAll()
+	s.faultsOn = true
+	for s.step = 0; s.step < s.cfg.Steps && !ctx.Violated(); s.step++ {
+		s.oneStep()
+		s.afterStep()
+	}
+	if !ctx.Violated() {
+		s.finalPhase()
+	}
+	if !ctx.Violated() {
+		s.orc.finalChecks()
+	}
+	return s.finish()
+}
+
+// newSim draws the configuration (adjusted by tweak) and prepares hosts,
+// network, clients and hooks.
+func newSim(ctx *runner.Ctx, tweak func(c *Cfg)) *Sim {
 	s := &Sim{ctx: ctx, src: ctx.Src, addrToHost: map[string]int{}, trToHost: map[*transport.Transport]int{}}
 	s.cfg = drawCfg(ctx)
+	if tweak != nil {
+		tweak(&s.cfg)
+	}
 	ctx.Tracef("cfg %s", s.cfg.String())
 	SetProcessRand(&auxRand{r: choice.NewSplitMix(ctx.Src.Aux)})
 	s.ex = coro.New()
@@ -475,25 +509,15 @@ func Run(ctx *runner.Ctx) *runner.Result {
 	for i := 0; i < s.cfg.Clients; i++ {
 		s.clients = append(s.clients, &Client{id: i, sim: s})
 	}
-	defer s.teardown()
-	// boot all hosts
+	return s
+}
+
+func (s *Sim) bootAll() {
 	for _, h := range s.hosts {
 		h := h
 		h.booting = true
 		s.runTask("boot", h, "boot", func() { s.boot(h) })
 	}
-	s.faultsOn = true
-	for s.step = 0; s.step < s.cfg.Steps && !ctx.Violated(); s.step++ {
-		s.oneStep()
-		s.afterStep()
-	}
-	if !ctx.Violated() {
-		s.finalPhase()
-	}
-	if !ctx.Violated() {
-		s.orc.finalChecks()
-	}
-	return s.finish()
 }
 
 func (s *Sim) finish() *runner.Result {
